@@ -34,6 +34,15 @@ CHECKS["C20"] = dict(
          "(presence patterns x name forms x include/list) comparing _lou_resolveTable and the active marker rule with the extracted model.",
     design="4/C20", technique="Coq proof over candidate programs regenerated from the C source + exhaustive differential run on real directory trees")
 
+CHECKS["C18"] = dict(
+    text="Machine-checked proof (Coq) over weights and comparison directions regenerated from metadata.c: lou_findTable is NULL iff "
+         "lou_findTables is empty and otherwise one of its members; findTables lists exactly the positively scored tables; a table "
+         "whose metadata equals the query scores 10 per feature and is found; same > missing > different and an extra field costs 1; "
+         "a strictly dominant positive table wins under every permutation of the index; getTableInfo returns the smallest-line "
+         "occurrence. Tied to the code by running the four API functions on generated header sets under all index orders against "
+         "the extracted model.",
+    design="4/C18", technique="Coq proof over scoring constants regenerated from the C source + differential correspondence with lou_findTable/lou_findTables/lou_getTableInfo")
+
 PENDING = {}
 
 
